@@ -47,6 +47,73 @@ fn number_lines(lines: Vec<&str>) -> (r: Vec<NumberedIndentedLine>) ensures r@.l
 #[verifier::external_body] fn vec_extend(v: &mut Vec<String>, w: Vec<String>) ensures final(v)@ == old(v)@ + w@ { v.extend(w) }
 #[verifier::external_body] fn is_last_empty(lines: &Vec<&str>) -> (r: bool) ensures r ==> lines@.len() > 0 { matches!(lines.last(), Some(&"")) }
 
+// ---------- NumberedIndentedLine::new: how deep a line is indented, and what it says ----------
+// ASSUMED (R4): std::str::Chars as a cursor over the characters of the string
+struct Chars { s: Ghost<Seq<char>>, pos: Ghost<int> }
+impl Chars {
+    spec fn rest(&self) -> Seq<char> { self.s@.subrange(self.pos@, self.s@.len() as int) }
+    #[verifier::external_body]
+    fn next(&mut self) -> (r: Option<char>)
+        requires 0 <= old(self).pos@ <= old(self).s@.len(),
+        ensures final(self).s@ == old(self).s@, 0 <= final(self).pos@ <= final(self).s@.len(),
+            old(self).pos@ < old(self).s@.len() ==> r == Some(old(self).s@[old(self).pos@]) && final(self).pos@ == old(self).pos@ + 1,
+            old(self).pos@ == old(self).s@.len() ==> r is None && final(self).pos@ == old(self).pos@,
+    { unimplemented!() }
+}
+#[verifier::external_body] fn chars_of(line: &String) -> (r: Chars) ensures r.s@ == line@, r.pos@ == 0, line@.len() <= usize::MAX /* a String's character count fits usize */ { unimplemented!() }
+// `c.to_string() + &it.collect::<String>()`
+#[verifier::external_body] fn char_and_rest(c: char, it: Chars) -> (r: String) requires 0 <= it.pos@ <= it.s@.len() ensures r@ == seq![c] + it.rest() { unimplemented!() }
+#[verifier::external_body] fn empty_string() -> (r: String) ensures r@ == Seq::<char>::empty() { String::new() }
+// the number of leading tabs of s
+spec fn tabs(s: Seq<char>) -> int decreases s.len() { if s.len() > 0 && s[0] == '\t' { 1 + tabs(s.subrange(1, s.len() as int)) } else { 0 } }
+proof fn tabs_props(s: Seq<char>)
+    ensures 0 <= tabs(s) <= s.len(), forall|j: int| 0 <= j < tabs(s) ==> s[j] == '\t', tabs(s) < s.len() ==> s[tabs(s)] != '\t'
+    decreases s.len()
+{
+    if s.len() > 0 && s[0] == '\t' {
+        let t = s.subrange(1, s.len() as int);
+        tabs_props(t);
+        assert forall|j: int| 0 <= j < tabs(s) implies s[j] == '\t' by { if j > 0 { assert(s[j] == t[j - 1]); } }
+        if tabs(s) < s.len() { assert(s[tabs(s)] == t[tabs(t)]); }
+    }
+}
+// k leading tabs followed by something that is not a tab (or by the end): k is the number of leading tabs
+proof fn tabs_is(s: Seq<char>, k: int)
+    requires 0 <= k <= s.len(), forall|j: int| 0 <= j < k ==> s[j] == '\t', k < s.len() ==> s[k] != '\t',
+    ensures tabs(s) == k
+    decreases s.len()
+{
+    if k > 0 {
+        let t = s.subrange(1, s.len() as int);
+        assert forall|j: int| 0 <= j < k - 1 implies t[j] == '\t' by { assert(t[j] == s[j + 1]); }
+        if k - 1 < t.len() { assert(t[k - 1] == s[k]); }
+        tabs_is(t, k - 1);
+    }
+}
+impl NumberedIndentedLine {
+//@ extract bundle.rs impl /^NumberedIndentedLine$/ fn new
+//@ props C14 C05
+//@ ret res
+//@ rewrite 1 /line\.chars\(\)/ => chars_of(&line)
+//@ rewrite 1 /c\.to_string\(\) \+ &it\.collect::<String>\(\)/ => char_and_rest(c, it)
+//@ rewrite 1 /""\.to_string\(\)/ => empty_string()
+//@ retype 1 /let mut level = 0;/ => let mut level : usize = 0;
+//@ spec
+        ensures
+            // the level is the number of leading tabs -- only those: tabs further right belong to the name -- and the text is the
+            // rest of the line, unchanged                                                                                       //# O-P2-indent [C14]
+            res.num == num, res.level == tabs(line@), res.text@ == line@.subrange(tabs(line@), line@.len() as int),
+//@ loop 1 invariant
+            invariant it.s@ == line@, 0 <= it.pos@ <= line@.len(), line@.len() <= usize::MAX, level == it.pos@, forall|j: int| 0 <= j < it.pos@ ==> line@[j] == '\t',
+            decreases line@.len() - it.pos@,
+//@ hint before 1/1 /match it\.next\(\)/
+            let ghost p = it.pos@;
+            proof { if p < line@.len() && line@[p] != '\t' { tabs_is(line@, p); } if p == line@.len() { tabs_is(line@, p); } }
+//@ hint before 1/1 /return NumberedIndentedLine\s*\{\s*num: num,\s*level: level,\s*text: c/
+                    proof { assert(seq![c] + it.rest() =~= line@.subrange(p, line@.len() as int)); }
+//@ end
+}
+
 impl PathNode {
 //@ extract bundle.rs impl /^PathNode$/ fn parent
 //@ props C14
